@@ -161,6 +161,7 @@ func instrumentFile(root, path string) error {
 			add(off(st.Pos()), 0, fmt.Sprintf("simrt.Yield(%d); ", id))
 		}
 	}
+	skipBlock := map[*ast.BlockStmt]bool{}
 	var walk func(n ast.Node) bool
 	walk = func(n ast.Node) bool {
 		switch x := n.(type) {
@@ -169,7 +170,16 @@ func instrumentFile(root, path string) error {
 			if x.Recv != nil && len(x.Recv.List) == 1 {
 				curFunc = typeString(x.Recv.List[0].Type) + "." + x.Name.Name
 			}
+		case *ast.SwitchStmt:
+			skipBlock[x.Body] = true // its list holds case clauses, not statements
+		case *ast.TypeSwitchStmt:
+			skipBlock[x.Body] = true
+		case *ast.SelectStmt:
+			skipBlock[x.Body] = true
 		case *ast.BlockStmt:
+			if skipBlock[x] {
+				break
+			}
 			if len(x.List) == 0 {
 				id := newSite(x.Lbrace)
 				add(off(x.Lbrace)+1, 0, fmt.Sprintf(" simrt.Yield(%d) ", id))
